@@ -446,3 +446,22 @@ h_bv_round_trip!(c18_q_roundtrip_bvdyn3n130_k62, 7, bvdyn3(130), 62);
 h_bv_round_trip!(c18_t_roundtrip_bvfixn64_k65, 7, bvfix(64), 65);
 h_bv_round_trip!(c18_t_roundtrip_bvfixn1_k200, 7, bvfix(1), 200);
 h_bv_round_trip!(c18_t_roundtrip_bvdyn3n100_k50, 7, bvdyn3(100), 50);
+
+// ---- "len <= capacity at every point" for the fixed type: growth beyond the capacity panics ----
+// (C19 covers this family in depth and in both build models; these instances make C18's own
+// check sensitive to a weakened capacity assertion)
+macro_rules! h_fixed_grow_panics {
+    ($name:ident, $unw:literal, $a:expr) => {
+        harness_mp!($name, $unw, {
+            let (mut a, ra) = $a;
+            let k = nd::usize();
+            nd::assume(k > ra.cap && k <= ra.cap + 70);
+            w!(ra.len == ra.cap && k == ra.cap + 1, "full vector grown by one bit");
+            a.resize(k, nd::bit());
+            never!("NEVER:a fixed vector grew beyond its capacity without panicking");
+        });
+    };
+}
+h_fixed_grow_panics!(c18_q_fixed_grow_f8x1_pb, 4, f8x1(anylen(8)));
+h_fixed_grow_panics!(c18_q_fixed_grow_f16x1_pb, 4, f16x1(anylen(16)));
+h_fixed_grow_panics!(c18_q_fixed_grow_f64x2_pb, 5, f64x2(anylen(128)));
